@@ -200,25 +200,17 @@ func arrayTrimSuffix(suffix rel.Value, subject rel.Array) (rel.Value, error) {
 // Case: subject=[1,2,3,4], sub=[2,3], return 1
 // Case: subject=[1,2,3,4], sub=[2,5], return -1
 func search(subject, sub []rel.Value) int {
-	subjectOffset, subOffset := 0, 0
-
-	for ; subjectOffset < len(subject); subjectOffset++ {
-		if subOffset < len(sub) && subject[subjectOffset].Equal(sub[subOffset]) {
-			subOffset++
-		} else {
-			if subOffset > 0 && subOffset < len(sub) {
-				subOffset = 0
-				subjectOffset--
+	for start := 0; start+len(sub) <= len(subject); start++ {
+		matched := true
+		for i, v := range sub {
+			if subject[start+i] == nil || !subject[start+i].Equal(v) {
+				matched = false
+				break
 			}
 		}
-		if subOffset == len(sub) {
-			break
+		if matched {
+			return start
 		}
-	}
-
-	if subjectOffset < len(subject) {
-		// see len(sub) > 1
-		return (subjectOffset + 1) - len(sub)
 	}
 	return -1
 }
